@@ -123,9 +123,13 @@ impl ActTask for Act {
                     task.set_state(TaskState::Completed);
                 }
 
-                if let Some(next) = &task.node.next().upgrade() {
-                    ctx.sched_task(next);
-                    return Ok(true);
+                // an act that waits for an external completion (such as a subflow call)
+                // must not start its successor before it is completed
+                if task.state().is_completed() {
+                    if let Some(next) = &task.node.next().upgrade() {
+                        ctx.sched_task(next);
+                        return Ok(true);
+                    }
                 }
             }
         } else if state.is_skip() || state.is_success() {
